@@ -804,4 +804,38 @@ def deepGraphO (big fuel : Nat) (ti : TypeInfo) (p : Program) : Option (List Nod
   | none => some []
   | some t => nodesOfO ti p big fuel (topPipe t) [] [] t
 
+/-! ## the remove-unused-calls loop as an iteration of the calls pass (Proofs/RefactorLoop.lean) -/
+
+/-- one calls pass on (type table, program): delete exactly the calls of `unusedCallPlan`
+and the cascade of inputs it computes -/
+def callsPass (s : TypeInfo × Program) : TypeInfo × Program :=
+  (s.1.removeInputs (unusedCallPlan s.2).2,
+   removeInputs (unusedCallPlan s.2).2 (applyCallRemovals (unusedCallPlan s.2).1 s.2))
+
+def callsIter : Nat → TypeInfo × Program → TypeInfo × Program
+  | 0, s => s
+  | m + 1, s => callsIter m (callsPass s)
+
+/-- `keepOf` reads the callable's name and kind only -/
+def keepN (rem : List CallRemoval) (n : String) (b : Bool) (i : String) : Bool :=
+  match rem.find? (fun r => r.pipe == n) with
+  | some r => !(b && r.ids.contains i)
+  | none => true
+
+/-- the calls that survive `m` passes: kept by every pass (each pass's removal list
+is computed on the program that pass sees) -/
+def loopKeep : Nat → TypeInfo × Program → String → Bool → String → Bool
+  | 0, _ => fun _ _ _ => true
+  | m + 1, s => fun n b i => keepN (unusedCallPlan s.2).1 n b i && loopKeep m (callsPass s) n b i
+
+/-- the input parameters removed by the cascades of `m` passes, in order -/
+def loopPairs : Nat → TypeInfo × Program → List (String × String)
+  | 0, _ => []
+  | m + 1, s => (unusedCallPlan s.2).2 ++ loopPairs m (callsPass s)
+
+/-- the number of passes the remove-unused-calls loop makes with fuel `fuel` -/
+def loopCount : Nat → TypeInfo × Program → Nat
+  | 0, _ => 0
+  | fuel + 1, s => if (unusedCallPlan s.2).1.isEmpty then 0 else 1 + loopCount fuel (callsPass s)
+
 end Martian.Refactor
